@@ -32,9 +32,19 @@ void flat1d(Ctx& c) {
         { Tensor<T, K> r = A(it) * T(2) + T(1); launder(r.data()); for (size_t k = 0; k < K; ++k) c.eq(r.data()[k], (T)(a0[offs[k]] * T(2) + T(1)), "A(it)*2+1", (long)k, "wrong-element-selected"); }
         ++reads;
         if (dup) continue;
-        int op = (int)(writes % 5), kind = (int)((writes / 5) % 3); ++writes;
+        int op = (int)(writes % 5), kind = (int)((writes / 5) % 4); ++writes;
         std::memcpy(model, a0, sizeof a0);
         T s = opaque(pick_scalar<T>(g, op));
+        if (kind == 3) {   // a right-hand side that needs evaluation first (lazy matrix-vector product) has its own overload of every operator
+            Tensor<T, K, 2> P; Tensor<T, 2> q; fill_small(P.data(), K * 2, g, 4); fill_small_nz(q.data(), 2, g, 4); T prod[K]; bool z = false;
+            for (size_t k = 0; k < K; ++k) { prod[k] = P.data()[k * 2] * q.data()[0] + P.data()[k * 2 + 1] * q.data()[1]; if (prod[k] == T(0)) z = true; }
+            if (op == 4 && z) op = 1;
+            for (size_t k = 0; k < K; ++k) model[offs[k]] = apply(op, a0[offs[k]], prod[k]);
+            switch (op) { case 0: A(it) = P % q; break; case 1: A(it) += P % q; break; case 2: A(it) -= P % q; break; case 3: A(it) *= P % q; break; default: A(it) /= P % q; }
+            launder(A.data());
+            cmp_parent(c, A.data(), model, N, offs, std::string("A(it)") + OPN[op] + "P%q", true);
+            continue;
+        }
         switch (kind) {
         case 0: for (size_t k = 0; k < K; ++k) model[offs[k]] = apply(op, a0[offs[k]], s);
             switch (op) { case 0: A(it) = s; break; case 1: A(it) += s; break; case 2: A(it) -= s; break; case 3: A(it) *= s; break; default: A(it) /= s; } break;
@@ -74,7 +84,7 @@ void axes2d(Ctx& c) {
         { Tensor<T, P, Q> r = A(ir, ic) - Rt; launder(r.data()); for (size_t k = 0; k < P * Q; ++k) c.eq(r.data()[k], (T)(a0[offs[k]] - Rt.data()[k]), "A(it0,it1)-R", (long)k, "wrong-element-selected"); }
         ++c.sub;
         if (dup) continue;
-        int op = (int)(writes % 5), kind = (int)((writes / 5) % 2); ++writes;
+        int op = (int)(writes % 5), kind = (int)((writes / 5) % 2); ++writes;     // (a right-hand side that needs evaluation has no overload for the two-index-tensor view: not demanded)
         std::memcpy(model, a0, sizeof a0); T s = opaque(pick_scalar<T>(g, op));
         if (kind == 0) { for (size_t k = 0; k < offs.size(); ++k) model[offs[k]] = apply(op, a0[offs[k]], s);
             switch (op) { case 0: A(ir, ic) = s; break; case 1: A(ir, ic) += s; break; case 2: A(ir, ic) -= s; break; case 3: A(ir, ic) *= s; break; default: A(ir, ic) /= s; } }
